@@ -43,6 +43,9 @@ T = {
  "C16-4": ("C16", "FD batch read: io_uring ring sized `plan.len().clamp(8, 64)`", "more than 64 unread blocks on one topic and one batch read whose budget spans them: FD errors for ever, mmap returns the entries"),
  "C19-1": ("C19", "the state-machine adapter logs and swallows an application `apply` error instead of returning it (the node keeps applying later entries)", "a node-local application failure while one committed entry is applied: that node skips the command, the others do not"),
  "C19-2": ("C19", "WalLogStore::append reports only the LAST record write's outcome to the flush callback and returns Ok", "a multi-entry append whose non-final record write fails, then a restart: an acknowledged entry is missing from the recovered log"),
+ "C18-3": ("C18", "RolloverTopic records the new segment's leader only when leadership moves (`if leader_node != new_leader`)", "a rollover to the node that already leads the topic: the open segment has no leader entry until the next rollover"),
+ "C19-3": ("C19", "WalLogStore::append signals the flush callback BEFORE the records are persisted", "a record write failure (or a kill) after the callback: the leader counts the node towards the quorum for entries its log does not hold"),
+ "C19-4": ("C19", "the adapter turns an application apply error into an `ERR ...` reply and goes on (the mechanism of C19-1, written independently)", "a node-local application failure on one committed command"),
  "C20-1": ("C20", "snapshot cache not invalidated by re-registration of a node with a new address", "an earlier snapshot, then UpsertNode of a known id with a new address, then snapshot"),
  "C20-2": ("C20", "restore validates node addresses as SocketAddr", "a registered node address with a host name"),
  "C20-3": ("C20", "rollover to a node that is not registered falls back to `state.nodes.keys().next()` (HashMap order, differs per replica)", "at least two registered nodes and a committed rollover to a voter whose UpsertNode has not been applied: replicas restored from a snapshot pick different leaders"),
